@@ -5,6 +5,8 @@ cd /repo || exit 2
 if [ -n "$(git status --porcelain)" ]; then echo "/repo not clean"; exit 2; fi
 if ! git apply --3way "$p" 2>/tmp/apply.err && ! git apply "$p" 2>>/tmp/apply.err; then echo "PATCH DOES NOT APPLY"; cat /tmp/apply.err; git reset -q --hard HEAD; exit 3; fi
 git reset -q
+cp /verif/evidence/$id.json /tmp/evidence_$id.bak 2>/dev/null
 cd /verif && timeout 3000 ./check "$id" --tier "$tier" > /tmp/try_$id.out 2>&1; rc=$?
+[ -f /tmp/evidence_$id.bak ] && mv /tmp/evidence_$id.bak /verif/evidence/$id.json
 cd /repo && git checkout -- . && git clean -fdq
 echo "exit=$rc"; grep -E "^(VIOLATION|KNOWN|OK|INCONCLUSIVE|BUILD)" /tmp/try_$id.out | head -8; grep -A1 "^VIOLATION" /tmp/try_$id.out | grep "sub-check" | head -3 | cut -c1-400
